@@ -3,24 +3,25 @@
 (* One behaviour = one (format, style, file, damage): Init chooses them, the    *)
 (* reader machine then runs to "done" or "error".                              *)
 EXTENDS Readers, Json
-CONSTANTS Fmts, Styles, MaxMols, MaxAtoms, SkipShapes
+CONSTANTS Fmts, Styles, MaxMols, MaxAtoms, SkipShapes, Classes
 
 Shapes    == {[na |-> a, nb |-> b] : a \in 0..MaxAtoms, b \in 0..1} \ {[na |-> a, nb |-> 1] : a \in 0..1}
 ShapesOf(f) == IF f = "xyz" THEN {s \in Shapes : s.nb = 0} ELSE Shapes \ SkipShapes
 ShapeSeqs(f) == UNION {[1..n -> ShapesOf(f)] : n \in 1..MaxMols}
 StylesOf(f) == IF f = "xyz" THEN {"plain"} ELSE Styles
 
-MCInit == \E f \in Fmts : \E st \in StylesOf(f) : \E shs \in ShapeSeqs(f) :
+ClassesOf(f) == IF f = "xyz" THEN {"Molecule"} ELSE Classes
+MCInit == \E f \in Fmts : \E c \in ClassesOf(f) : \E st \in StylesOf(f) : \E shs \in ShapeSeqs(f) :
             LET file == Render(f, st, shs) IN
             \E d \in Damages(f, file) :
-              /\ fmt = f /\ meta = [style |-> st, shapes |-> shs] /\ orig = file /\ dmg = d /\ ref = MkRef(f, st, shs)
+              /\ fmt = f /\ cls = c /\ meta = [style |-> st, shapes |-> shs] /\ orig = file /\ dmg = d /\ ref = MkRef(f, st, shs, c)
               /\ lines = Apply(file, d) /\ ReaderInit /\ last = [act |-> "init"]
 MCSpec == MCInit /\ [][ReaderNext]_vars
 
 View == <<ivars, rvars>>
 (* one line per finished behaviour: the input, what the modelled reader did, and whether the contract holds *)
 Emit == IF pc' \in {"done", "error"}
-          THEN PrintT(ToJson([act |-> [name |-> "end"], fmt |-> fmt, style |-> meta.style, shapes |-> meta.shapes,
+          THEN PrintT(ToJson([act |-> [name |-> "end"], fmt |-> fmt, cls |-> cls, style |-> meta.style, shapes |-> meta.shapes,
                               op |-> dmg.op, i |-> dmg.i, v |-> dmg.v, line |-> dmg.line,
                               status |-> pc', n |-> Len(out'),
                               ok |-> (pc' = "done" => RetOK(out', ref, Declared(fmt, lines)))]))
@@ -35,7 +36,11 @@ StylesT == {"blank", "nostatus", "stars", "unity", "sub"}
 StylesU == {"unity", "sub", "stars"}
 SkipNone == {}
 SkipQ == {[na |-> 2, nb |-> 0]}      \* quick tier: mol2 shapes (0,0), (1,0), (2,1)
+ClsMol == {"Molecule"}
+ClsStruct == {"Structure"}
+ClsBoth == {"Molecule", "Structure"}
 DevNone == {}
+DevNoQ == {"MissingChargeIsZero"}
 DevAsFound == {"StaleLists", "NoCountCheck"}
 DevStale == {"StaleLists"}
 DevRepeat == {"RepeatedBlockAccepted"}
